@@ -105,6 +105,17 @@ def pair_st(draw, tier):
         bottom["action"] = top["action"]
         other = "dst" if side == "src" else "src"
         bottom[other] = dict(top[other])
+    if draw(st.sampled_from(range(80))) == 0:
+        # two large expansions (2^9 prefixes each) related by a few low bits: the cover test of the library
+        # is quadratic here, so this class is kept rare
+        side = draw(st.sampled_from(["src", "dst"]))
+        hi = ((1 << 9) - 1) << draw(st.sampled_from([8, 9, 16]))
+        low_t, low_b = draw(st.integers(0, 4)), draw(st.integers(0, 4))
+        base = G.POOL_BASE & ~hi & R.ALL1
+        for rec, low in ((top, low_t), (bottom, low_b)):
+            w = hi | ((1 << low) - 1)
+            rec[side] = {"k": "wild", "b": (base | draw(st.integers(0, 7))) & ~w & R.ALL1, "w": w}
+        bottom["action"] = top["action"]
     # usual Cisco order 'log <other options>': the log keyword in front of the flag tokens
     for rec in (top, bottom):
         if rec.get("flags") and draw(st.sampled_from([True, False, False])):
